@@ -92,6 +92,8 @@ type ConfCase struct {
 	ExclURI    []string    `json:"xuri,omitempty"`
 	PermIP     []IPNetSpec `json:"pip,omitempty"`
 	ExclIP     []IPNetSpec `json:"xip,omitempty"`
+	PermOther  []int       `json:"pother,omitempty"` // derx encoder: GeneralName forms neither parser interprets (indexes otherForms)
+	ExclOther  []int       `json:"xother,omitempty"`
 
 	Policies [][]int  `json:"policies,omitempty"`
 	OCSP     []string `json:"ocsp,omitempty"`
@@ -326,6 +328,9 @@ func genConf(t *rapid.T) ConfCase {
 		c.PermEmail, c.ExclEmail = pickN(t, "pemail", ncEmail, 2), pickN(t, "xemail", ncEmail, 2)
 		c.PermURI, c.ExclURI = pickN(t, "puri", ncURI, 2), pickN(t, "xuri", ncURI, 2)
 		c.PermIP, c.ExclIP = genNets(t, "pip"), genNets(t, "xip")
+		if c.Enc == 1 {
+			c.PermOther, c.ExclOther = pickN(t, "pother", []int{0, 1, 2, 3, 4}, 2), pickN(t, "xother", []int{0, 1, 2, 3, 4}, 2)
+		}
 	}
 	for i, n := 0, []int{0, 0, 1, 2, 3}[uni(t, "pol#")%5]; i < n; i++ {
 		base := [][]int{{2, 5, 29, 32, 0}, {2, 23, 140, 1, 2, 1}, {2, 23, 140, 1, 2, 2}, {1, 3, 6, 1, 4, 1, 99999, 2}, {0, 39, 1}, {1, 0, 8571, 2}, {2, 999, 1 << 27}}[uni(t, "pol")%7]
@@ -588,8 +593,22 @@ func pkiName(attrs []AttrSpec) pki.Name {
 
 func gnURI(s string) []byte { return derx.TLV(0x86, []byte(s)) }
 
-func subtrees(tag byte, dns, emails, uris []string, nets []IPNetSpec) []byte {
+// otherForms: GeneralName forms that neither parser interprets as a constraint base.
+var otherForms = [][]byte{
+	derx.TLV(0xa4, pki.CN("dir constraint").DER()),                                                                     // directoryName
+	derx.TLV(0xa0, derx.OID(1, 3, 6, 1, 4, 1, 311, 20, 2, 3), derx.Explicit(0, derx.Str(derx.TagUTF8String, "upn@x"))), // otherName
+	derx.TLV(0xa3, derx.Seq()),                                                                                         // x400Address (opaque here)
+	derx.TLV(0x88, derx.OIDContent([]int{1, 2, 3, 4})),                                                                 // registeredID
+	derx.TLV(0xa5, derx.TLV(0xa1, derx.Str(derx.TagUTF8String, "party"))),                                              // ediPartyName
+}
+
+func subtrees(tag byte, dns, emails, uris []string, nets []IPNetSpec, other []int) []byte {
 	var body [][]byte
+	for i, o := range other {
+		if i%2 == 0 {
+			body = append(body, derx.Seq(otherForms[o%len(otherForms)]))
+		}
+	}
 	for _, d := range dns {
 		body = append(body, derx.Seq(derx.TLV(0x82, []byte(d))))
 	}
@@ -602,6 +621,11 @@ func subtrees(tag byte, dns, emails, uris []string, nets []IPNetSpec) []byte {
 	}
 	for _, u := range uris {
 		body = append(body, derx.Seq(derx.TLV(0x86, []byte(u))))
+	}
+	for i, o := range other {
+		if i%2 == 1 {
+			body = append(body, derx.Seq(otherForms[o%len(otherForms)]))
+		}
 	}
 	if len(body) == 0 {
 		return nil
@@ -699,7 +723,7 @@ func pkiBuild(c ConfCase) ([]byte, error) {
 			exts = append(exts, pki.Ext{OID: pki.OIDExtSAN, Critical: len(c.Subject) == 0 || bit(5), Value: derx.Seq(san...)})
 		}
 	}
-	if p, x := subtrees(0xa0, c.PermDNS, c.PermEmail, c.PermURI, c.PermIP), subtrees(0xa1, c.ExclDNS, c.ExclEmail, c.ExclURI, c.ExclIP); p != nil || x != nil {
+	if p, x := subtrees(0xa0, c.PermDNS, c.PermEmail, c.PermURI, c.PermIP, c.PermOther), subtrees(0xa1, c.ExclDNS, c.ExclEmail, c.ExclURI, c.ExclIP, c.ExclOther); p != nil || x != nil {
 		exts = append(exts, pki.Ext{OID: pki.OIDExtNameConstr, Critical: c.NCCritical, Value: derx.Seq(p, x)})
 	}
 	if len(c.Policies) > 0 {
@@ -1137,6 +1161,15 @@ func checkConf(t *testing.T, c ConfCase) harness.Verdict {
 			}
 			if c.Shuffle != 0 {
 				v.Class("variant:shuffled-extensions")
+			}
+			if len(c.PermOther) > 0 {
+				v.Class("nc:permitted-other-forms")
+			}
+			if len(c.ExclOther) > 0 {
+				v.Class("nc:excluded-other-forms")
+			}
+			if len(c.PermOther) > 0 && len(c.ExclOther) == 0 && len(ref.ExcludedDNSDomains)+len(ref.ExcludedIPRanges)+len(ref.ExcludedEmailAddresses)+len(ref.ExcludedURIDomains) > 0 && c.NCCritical {
+				v.Class("nc:critical-other-in-permitted-only")
 			}
 			for i, sh := range emptyShapes {
 				if c.Empty>>uint(i)&1 == 1 {
